@@ -63,6 +63,32 @@ def l_mul(a: dict, b: dict) -> dict:
     return {t: c for t, c in out.items() if c != 0}
 
 
+def l_norm(a: dict) -> dict:
+    """One spelling for complementary indicators: ind(c) is rewritten as 1 - ind(not c) (also inside products and sums), so that
+    `24*ind(c) + 26*ind(not c)` and `24 + 2*ind(not c)` are the same form."""
+    out = {}
+    for t, c in a.items():
+        if isinstance(t, tuple) and t[0] == "ind" and not t[1].startswith("not "):
+            out = l_add(out, {1: c, ("ind", "not " + t[1]): -c})
+        elif isinstance(t, tuple) and t[0] == "mul" and any(isinstance(x, tuple) and x[0] == "ind" and not x[1].startswith("not ") for x in t[1:]):
+            i = next(i for i, x in enumerate(t[1:]) if isinstance(x, tuple) and x[0] == "ind" and not x[1].startswith("not "))
+            rest = [x for j, x in enumerate(t[1:]) if j != i]
+            other = rest[0] if len(rest) == 1 else ("mul",) + tuple(rest)
+            neg = ("mul",) + tuple(sorted([("ind", "not " + t[1 + i][1]), other], key=repr))
+            out = l_add(out, l_norm({other: c}))
+            out = l_add(out, {neg: -c})
+        elif isinstance(t, tuple) and t[0] == "sum":
+            inner = l_norm(dict(t[2]))
+            const = inner.pop(1, 0)
+            if inner:
+                out = l_add(out, {("sum", t[1], l_key(inner)): c})
+            if const:
+                out = l_add(out, {("len", t[1]): c * const})
+        else:
+            out = l_add(out, {t: c})
+    return out
+
+
 def l_key(a: dict):
     return tuple(sorted(a.items(), key=repr))
 
@@ -572,9 +598,16 @@ class LenEv:
                         e1[k] = {}
                     elif isinstance(v, Bytes) and k in before:
                         e1[k] = Bytes({})
+                e2 = dict(e1)  # the else-arm starts from the same state as the then-arm
                 d1 = self.body_delta(s.body, e1)
-                e2 = dict(e1)
                 d2 = self.body_delta(s.orelse, e2) if s.orelse else {}
+                # a name bound in both arms (e.g. a per-record size chosen by the test) continues with the guarded combination
+                for k in (set(e1) & set(e2)) - set(env):
+                    a, b = e1[k], e2[k]
+                    if isinstance(a, dict) and isinstance(b, dict):
+                        env[k] = a if a == b else l_add(l_mul({("ind", c): 1}, a), l_mul({("ind", _neg(c)): 1}, b))
+                    else:
+                        env[k] = Opaque(k)
                 for k in set(d1) | set(d2):
                     a, b = d1.get(k, {}), d2.get(k, {})
                     if a == b:
